@@ -13,6 +13,7 @@ mod c20;
 mod c19;
 mod c06;
 mod c01;
+mod c02;
 
 fn main() {
     let args: Vec<String> = std::env::args().collect();
@@ -36,6 +37,7 @@ fn main() {
             "C19" => c19::search(seed, &budget, thorough),
             "C06" => c06::search(seed, &budget, thorough),
             "C01" => c01::search(seed, &budget, thorough),
+            "C02" => c02::search(seed, &budget, thorough),
             _ => { println!("NOORACLE"); return; }
         };
         match res {
@@ -56,6 +58,7 @@ fn main() {
             "C19" => c19::run(&input),
             "C06" => c06::run(&input),
             "C01" => c01::run(&input),
+            "C02" => c02::run(&input),
             _ => Err("no oracle".to_string()),
         };
         match r {
